@@ -174,6 +174,52 @@ def applyCoercer : Coercer → Val → Val → Option Val
     | _ => none
 end
 
+/-! ### The same evaluation, threading the variables of the generated function
+
+  The generated code is one `return <expression>`; the expression language
+  (`Plan`) has no assignment, no deletion and no augmented assignment.  To state
+  that as a theorem the evaluator is repeated in store-passing style: every
+  sub-expression receives the variables `data` / `ctx` of the frame and hands
+  them on.  Constructors and user functions are modelled as pure (assumption).
+-/
+
+structure Store where
+  data : Val
+  ctx : Val
+
+mutual
+def runPlan (st : Store) : Plan → Option (Val × Store)
+  | .param n => if n == "data" then some (st.data, st) else if n == "ctx" then some (st.ctx, st) else none
+  | .const v => some (v, st)
+  | .call f args =>
+    match runArgs st args with
+    | none => none
+    | some (vs, st') => runCallee st' f vs
+  | .access t a =>
+    match runPlan st t with
+    | some (v, st') => (v.access a).map (·, st')
+    | none => none
+def runArgs (st : Store) : List (Option Name × Plan) → Option (List (Option Name × Val) × Store)
+  | [] => some ([], st)
+  | (k, p) :: rest =>
+    match runPlan st p with
+    | none => none
+    | some (v, st') =>
+      match runArgs st' rest with
+      | none => none
+      | some (vs, st'') => some ((k, v) :: vs, st'')
+def runCallee (st : Store) : Callee → List (Option Name × Val) → Option (Val × Store)
+  | .ctor s, vs => (callCtor s vs).map (·, st)
+  | .func f lit, vs =>
+    match vs, lit with
+    | [], some l => some (l, st)
+    | _, _ => some (.app f (positionalOf vs) (keywordsOf vs), st)
+  | .coercer c, vs =>
+    match vs with
+    | [(none, d), (none, cx)] => (applyCoercer c d cx).map (·, st)
+    | _ => none
+end
+
 /-! ### Generation -/
 
 def gpLoc (t : Ty) (pos : Nat) : Loc := { kind := .genericParam, ty := t, pos := pos }
